@@ -233,7 +233,7 @@ class PyModule(object):
                 if len(nested) == 1:
                     found = nested[0]
                 else:
-                    found = self._helper_by_role(node, nested)
+                    found = self._helper_by_role(node, nested, last=(i_part == len(qualname.split('.')) - 1))
                 if found is not None:
                     by_role = True
             if found is None and i_part == 0:
@@ -268,7 +268,7 @@ class PyModule(object):
                 return self._imported_def(s_.value.id) or self._find(self.tree.body, s_.value.id, (ast.FunctionDef, ast.ClassDef))
         return None
 
-    def _helper_by_role(self, entry, nested):
+    def _helper_by_role(self, entry, nested, last=True):
         """the recursive helper of `entry` when it is not found by name: the one self-recursive closure of entry, or
         the one self-recursive function / method of the enclosing scope that entry calls (a closure that was moved out)"""
         def calls_self(fn):
@@ -301,7 +301,23 @@ class PyModule(object):
                 if isinstance(n, (ast.FunctionDef, ast.AsyncFunctionDef)) and n is not entry and n.name in called and calls_self(n):
                     cands.append(n)
             scope = getattr(scope, '_parent', None)
-        return cands[0] if len(cands) == 1 else None
+        if len(cands) == 1:
+            return cands[0]
+        if not cands and not nested:
+            # the work was moved into a module-level function that keeps the recursive walk as its own closure
+            # (entry: open the file / check the arguments; worker: def rec(..) .. for x in ..: yield ..)
+            workers = []
+            scope = getattr(entry, '_parent', None)
+            while scope is not None:
+                for n in getattr(scope, 'body', []):
+                    if isinstance(n, (ast.FunctionDef, ast.AsyncFunctionDef)) and n is not entry and n.name in called:
+                        inner = [m for m in ast.walk(n) if isinstance(m, (ast.FunctionDef, ast.AsyncFunctionDef)) and m is not n and calls_self(m)]
+                        if len(inner) == 1:
+                            workers.append((n, inner[0]))
+                scope = getattr(scope, '_parent', None)
+            if len(workers) == 1:
+                return workers[0][1] if last else workers[0][0]
+        return None
 
     def literal(self, node):
         """the display a node stands for: itself, or -- for a name bound once at module level -- that binding's value"""
@@ -391,6 +407,8 @@ class Repo(object):
             # Python modules know the classes of the reference tree by role) -- the Cython front end flattens them
             objflat.plain_local_assignments(tree)
             objflat.merge_registry(tree)
+            objflat._link(tree)
+            objflat.expand_element_attributes(tree)
             objflat.inline_skeletons(tree)
             objflat._link(tree)
             objflat.inline_generators(tree, lambda name, tree=tree, rel=rel: self._generator_named(tree, rel, name))
